@@ -33,6 +33,9 @@ def templates(tier, seed):
     # elements that compare equal and hash alike (as 1, 1.0 and True do) but convert independently
     for keys in ([0, 0], [0, 1, 0], [0, 0, 0]) if tier == "quick" else ([0, 0], [0, 1, 0], [0, 0, 0], [0, 0, 1, 1], [1, 0, 0, 2]):
         ts.append(Template(f"STUB/equal_elements/{''.join(map(str, keys))}", tmpl.pick(tmpl.coerce_stub_case, LABELS), (len(keys), "series", keys)))
+        # ... also under repeated row labels and with an element conversion that raises something other than ValueError
+        if tier != "quick" or len(keys) == 2:
+            ts.append(Template(f"STUB/equal_elements_repeated_labels/{''.join(map(str, keys))}", tmpl.pick(tmpl.coerce_stub_case, LABELS), (len(keys), "series", keys, "pandas", "TypeError", False)))
     # a dtype whose conversion is written in pandera itself: Category (values outside the categories must not silently become nulls)
     for N in ((1, 2) if tier == "quick" else (1, 2, 3)):
         for level in ("try_coerce", "column"):
